@@ -643,3 +643,34 @@ R.contract(
     },
     replayable=False,
 )
+
+
+# ------------------------------------------------------------------------------------------------- OperationCache: definitions by operationId (lookup by id reads what get_all_operations / the id scan stored)
+_DefCache = lambda: Obj(CA + "OperationCache", _id_to_definition=KeyedDict(Str, Opq("CacheEntry"), sizes=(0, 1, 2)))
+R.contract(
+    CA + "OperationCache.insert_definition_by_id",
+    variant="map",
+    prop="C08",
+    args={"self": _DefCache(), "operation_id": Str, "path": Str, "method": Str, "scope": Str, "path_item": Opq("PathItem"), "operation": Opq("RawDefinition")},
+    raises=[],
+    ensures={
+        "the_definition_is_stored_under_its_id_with_all_its_parts": "operation_id in self._id_to_definition and self._id_to_definition[operation_id].path == path and self._id_to_definition[operation_id].method == method and "
+                                                                    "self._id_to_definition[operation_id].scope == scope and self._id_to_definition[operation_id].path_item is path_item and "
+                                                                    "self._id_to_definition[operation_id].operation is operation",
+        "other_ids_keep_their_definition": "all(implies(k != operation_id, k in self._id_to_definition and self._id_to_definition[k] is old(dict(self._id_to_definition))[k]) for k in old(dict(self._id_to_definition))) and "
+                                           "all(k == operation_id or k in old(dict(self._id_to_definition)) for k in self._id_to_definition)",
+    },
+    bounded_note="caches with up to 2 stored definitions",
+    replayable=False,
+)
+R.contract(
+    CA + "OperationCache.get_definition_by_id",
+    variant="map",
+    prop="C08",
+    args={"self": _DefCache(), "operation_id": Str},
+    raises=["KeyError"],
+    ensures={"the_stored_definition_of_that_id": "operation_id in self._id_to_definition and result is self._id_to_definition[operation_id] and self._id_to_definition == old(dict(self._id_to_definition))"},
+    raises_ensures={"unknown_ids_are_an_error_not_another_operation": "raised == 'KeyError' and operation_id not in self._id_to_definition"},
+    bounded_note="caches with up to 2 stored definitions",
+    replayable=False,
+)
